@@ -366,7 +366,12 @@ def normEv : Ev → Ev
 
 def rcnKey (e : Ev) : Nat := match e.rcn? with | some r => r | none => 1000000000
 
-def normEvs (evs : List Ev) : List Ev := (evs.map normEv).mergeSort fun a b => rcnKey a ≤ rcnKey b
+/-- Event lists are compared as multisets per class: `HashMap` iteration (classes, `used_keys`
+of a child, entries of `issued`) decides the order in which `process` pushes independent events;
+what the order does to the state is checked by applying the observed events. -/
+def normEvs (evs : List Ev) : List Ev :=
+  ((evs.map normEv).map fun e => (rcnKey e, reprStr e, e)).mergeSort
+    (fun a b => a.1 < b.1 || (a.1 == b.1 && a.2.1 ≤ b.2.1)) |>.map (·.2.2)
 
 /-! ## Driver state -/
 
